@@ -7,9 +7,11 @@ package main
 // a claim may only succeed for a live process).
 
 import (
+	"encoding/json"
 	"errors"
 	"fmt"
 	"math/rand"
+	"os"
 	"runtime"
 	"sort"
 	"strings"
@@ -29,7 +31,7 @@ type nIn struct {
 	Op   string // claim unreg-node unreg-self term resolve | ev-reg ev-unreg ev-pub
 	Via  string // node self spawn | kill exit stop | send call
 	Who  int    // claimer index the op is about (-1: none, -2: the node itself for events)
-	Tok  gen.Ref
+	Tok  gen.Ref `json:"-"`
 	// relaxed models only: the op overlaps the op of the other kind that the known race needs
 	RaceA bool // claim by Node.RegisterName(i) <-> termination of i
 	RaceB bool // termination of i <-> Node.UnregisterName that removed i
@@ -42,7 +44,7 @@ type nIn struct {
 type nOut struct {
 	Res string // ok taken dead unknown notowner none
 	Who int    // owner reported by the operation (unreg-node, resolve)
-	Tok gen.Ref
+	Tok gen.Ref `json:"-"`
 	Err string
 }
 
@@ -52,6 +54,39 @@ type nState struct {
 	Tok   gen.Ref
 	Vict  uint64 // relaxed model B only: processes whose table entry was removed behind their back
 	Rel   uint64 // processes whose termination has released its registration (a process terminates once)
+	// number of claim-try steps whose claim-undo is pending, per process: a 3-bit counter
+	// spread over three masks (several claims for one process may be in flight)
+	T1, T2, T4 uint64
+	Trans      uint64 // entry written by a claim-try
+}
+
+func (s *nState) tried(i int) int {
+	n := 0
+	if s.T1&bit(i) != 0 {
+		n |= 1
+	}
+	if s.T2&bit(i) != 0 {
+		n |= 2
+	}
+	if s.T4&bit(i) != 0 {
+		n |= 4
+	}
+	return n
+}
+
+func (s *nState) setTried(i, n int) {
+	s.T1 &^= bit(i)
+	s.T2 &^= bit(i)
+	s.T4 &^= bit(i)
+	if n&1 != 0 {
+		s.T1 |= bit(i)
+	}
+	if n&2 != 0 {
+		s.T2 |= bit(i)
+	}
+	if n&4 != 0 {
+		s.T4 |= bit(i)
+	}
 }
 
 func bit(i int) uint64 {
@@ -98,6 +133,33 @@ func nameModel(relaxA, relaxB bool) porcupine.Model {
 					}
 					return one(s)
 				}
+			case "claim-try":
+				// first half of a claim that reported the process as terminated while that process
+				// was terminating: the entry may have been in the table for a while ...
+				if s.tried(in.Who) >= 7 {
+					return nil
+				}
+				s.setTried(in.Who, s.tried(in.Who)+1)
+				if s.Owner == -1 {
+					c := s
+					c.Owner = in.Who
+					c.Trans |= bit(in.Who)
+					return []interface{}{s, c}
+				}
+				return one(s)
+			case "claim-undo":
+				// ... and is taken out again by the call itself, which has seen the process dead
+				if s.tried(in.Who) == 0 || s.Dead&bit(in.Who) == 0 {
+					return nil
+				}
+				s.setTried(in.Who, s.tried(in.Who)-1)
+				if s.Trans&bit(in.Who) != 0 {
+					s.Trans &^= bit(in.Who)
+					if s.Owner == in.Who {
+						s.Owner = -1
+					}
+				}
+				return one(s)
 			case "unreg-node":
 				switch out.Res {
 				case "ok":
@@ -200,6 +262,11 @@ func nameModel(relaxA, relaxB bool) porcupine.Model {
 			case "ev-unreg":
 				switch out.Res {
 				case "ok":
+					if in.Flag && s.Owner != in.Who {
+						// two overlapping unregistrations by the same owner may both report success
+						// (the entry is checked, then deleted); the second one removes nothing
+						return one(s)
+					}
 					if s.Owner == -1 || s.Owner != in.Who {
 						return nil
 					}
@@ -579,17 +646,29 @@ func markRaces(ops []recOp) {
 				a.in.RaceA = true
 				b.in.RaceA = true
 			}
+			if a.in.Op == "claim" && b.in.Op == "claim" && b.out.Res == "dead" {
+				// a claim for a process found dead may have held the entry for a moment
+				// before giving up: a concurrent claimer that saw it gets ErrTaken
+				a.in.Flag = true
+			}
 			if a.in.Op == "claim" && a.in.Via != "spawn" {
 				// (Process.UnregisterName does not say whose entry it removed)
 				if (b.in.Op == "unreg-node" && b.out.Res == "ok" && b.out.Who == a.in.Who) || (b.in.Op == "unreg-self" && b.out.Res == "ok") || (b.in.Op == "claim" && b.in.Who == a.in.Who) {
 					a.in.Flag = true
 				}
 			}
+			if a.in.Op == "ev-unreg" && b.in.Op == "ev-unreg" && a.in.Who == b.in.Who && a.out.Res == "ok" && b.out.Res == "ok" {
+				a.in.Flag = true
+			}
 			if a.in.Op == "unreg-self" && b.in.Op == "claim" && b.in.Via == "node" && b.in.Who == a.in.Who {
 				a.in.Flag = true
 			}
 			// term(i) overlapping an unreg-node that removed i
-			if a.in.Op == "term" && b.in.Op == "unreg-node" && b.out.Res == "ok" && b.out.Who == a.in.Who {
+			if a.in.Op == "term" && b.in.Op == "unreg-node" && b.out.Res == "ok" && (b.out.Who == a.in.Who || b.out.Who == -4) {
+				a.in.RaceB = true
+			}
+			// (Process.UnregisterName goes through Node.UnregisterName(p.name) and may have removed anybody's entry)
+			if a.in.Op == "term" && b.in.Op == "unreg-self" && b.out.Res == "ok" {
 				a.in.RaceB = true
 			}
 		}
@@ -600,6 +679,13 @@ func toPorcupine(ops []recOp) []porcupine.Operation {
 	var h []porcupine.Operation
 	for _, o := range ops {
 		if o.drop {
+			continue
+		}
+		if o.in.Op == "claim" && o.out.Res == "dead" && o.in.RaceA {
+			a, b := o.in, o.in
+			a.Op, b.Op = "claim-try", "claim-undo"
+			h = append(h, porcupine.Operation{ClientId: o.client, Input: a, Call: o.call, Output: o.out, Return: o.ret})
+			h = append(h, porcupine.Operation{ClientId: o.client, Input: b, Call: o.call, Output: o.out, Return: o.ret})
 			continue
 		}
 		if o.in.Op == "term" {
@@ -613,6 +699,71 @@ func toPorcupine(ops []recOp) []porcupine.Operation {
 		h = append(h, porcupine.Operation{ClientId: o.client, Input: o.in, Call: o.call, Output: o.out, Return: o.ret})
 	}
 	return h
+}
+
+// machine-readable copy of a history (witness; `C06_RECHECK=<viol.json>` re-decides it offline)
+type opJSON struct {
+	In     nIn   `json:"in"`
+	Out    nOut  `json:"out"`
+	Call   int64 `json:"call"`
+	Ret    int64 `json:"ret"`
+	Client int   `json:"client"`
+	Drop   bool  `json:"drop,omitempty"`
+	// event tokens (gen.Ref marshals to a string): the three id words
+	InTok  [3]uint64 `json:"in_tok"`
+	OutTok [3]uint64 `json:"out_tok"`
+}
+
+func rawHistory(ops []recOp) []opJSON {
+	var out []opJSON
+	for _, o := range ops {
+		out = append(out, opJSON{In: o.in, Out: o.out, Call: o.call, Ret: o.ret, Client: o.client, Drop: o.drop, InTok: o.in.Tok.ID, OutTok: o.out.Tok.ID})
+	}
+	return out
+}
+
+func fromRaw(raw []opJSON) []recOp {
+	var ops []recOp
+	for _, o := range raw {
+		o.In.RaceA, o.In.RaceB, o.In.Flag = false, false, false
+		o.In.Tok.ID, o.Out.Tok.ID = o.InTok, o.OutTok
+		ops = append(ops, recOp{in: o.In, out: o.Out, call: o.Call, ret: o.Ret, client: o.Client, drop: o.Drop})
+	}
+	return ops
+}
+
+// recheck re-decides the histories stored in a violation replay file (development aid)
+func recheck(path string) {
+	b, err := os.ReadFile(path)
+	if err != nil {
+		fmt.Fprintln(os.Stderr, err)
+		return
+	}
+	var v struct {
+		ID     string `json:"id"`
+		Detail struct {
+			NL  []struct {
+				Raw []opJSON `json:"raw"`
+			} `json:"not_linearizable"`
+			Raw []opJSON `json:"raw"`
+		} `json:"detail"`
+	}
+	if err := json.Unmarshal(b, &v); err != nil {
+		fmt.Fprintln(os.Stderr, err)
+		return
+	}
+	one := func(raw []opJSON, events bool) {
+		ops := fromRaw(raw)
+		markRaces(ops)
+		sig, to := decide(ops, events)
+		fmt.Printf("%s: %d operations: sig=%q timeout=%v first_unexplained=%s\n", v.ID, len(ops), sig, to, firstUnexplained(ops))
+	}
+	for _, p := range v.Detail.NL {
+		one(p.Raw, false)
+	}
+	if len(v.Detail.Raw) > 0 {
+		one(v.Detail.Raw, true)
+	}
 }
 
 func fmtHistory(ops []recOp) []string {
@@ -876,7 +1027,7 @@ func runNameLin(k int) {
 				r.inconclusive("porcupine: timeout on partition %d (%d operations)", pi, len(ops))
 			} else if sig != "" {
 				r.fail(sig, "the history of name %q (%d operations by %d clients over %d claimers) has no linearization against owner∈{none,pid} with claims only by live processes", pt.name, len(ops), workers+1, len(pt.claimers))
-				illegal = append(illegal, map[string]any{"name": pt.name, "first_unexplained": firstUnexplained(ops), "history": fmtHistory(ops)})
+				illegal = append(illegal, map[string]any{"name": pt.name, "first_unexplained": firstUnexplained(ops), "history": fmtHistory(ops), "raw": rawHistory(ops)})
 			}
 		}
 		hist[pi] = ops
@@ -1122,6 +1273,7 @@ func runEventLin(k int) {
 		}
 	}
 	var detail = map[string]any{"workers": workers, "ops_per_worker": per, "initial_claimers": initial}
+	markRaces(ops)
 	c, ct := overlappingClaims(ops)
 	if r.incon == "" {
 		sig, to := decide(ops, true)
@@ -1131,6 +1283,7 @@ func runEventLin(k int) {
 			r.fail(sig, "the history of event %q (%d operations by %d clients over %d claimers) has no linearization against owner∈{none,(pid,token)}", pt.name, len(ops), workers+1, len(pt.claimers))
 			detail["history"] = fmtHistory(ops)
 			detail["first_unexplained"] = firstUnexplained(ops)
+			detail["raw"] = rawHistory(ops)
 		}
 	}
 	for _, h := range pt.claimers {
